@@ -8,7 +8,6 @@ package c16
 
 import (
 	"bytes"
-	"encoding/binary"
 	"errors"
 	"fmt"
 	"io"
@@ -26,19 +25,50 @@ import (
 
 const maxStalledRows = 1000000
 
-// countingReader counts the bytes handed to the decoder.
+// countingReader counts the bytes handed to the decoder.  Reader behaviours
+// ("fault sequences"): "" delivers as much as asked for, "1-byte" one byte per
+// call (every multi-byte field arrives as a sequence of short reads), "fail" ends
+// the stream with a non-EOF error instead of io.EOF.
 type countingReader struct {
-	r *bytes.Reader
-	n int64
+	r     *bytes.Reader
+	n     int64
+	chunk int
+	fail  error
 }
 
+var errInjected = errors.New("injected read failure")
+
+var readerModes = []string{"", "1-byte", "fail"}
+
 func (c *countingReader) Read(p []byte) (int, error) {
+	if c.chunk > 0 && len(p) > c.chunk {
+		p = p[:c.chunk]
+	}
 	n, err := c.r.Read(p)
 	c.n += int64(n)
+	if err == io.EOF && c.fail != nil {
+		err = c.fail
+	}
 	return n, err
 }
 
-func newCR(data []byte) *countingReader { return &countingReader{r: bytes.NewReader(data)} }
+func newCR(data []byte, mode string) *countingReader {
+	c := &countingReader{r: bytes.NewReader(data)}
+	switch mode {
+	case "1-byte":
+		c.chunk = 1
+	case "fail":
+		c.fail = errInjected
+	}
+	return c
+}
+
+func apiName(api, mode string) string {
+	if mode == "" {
+		return api
+	}
+	return api + " [reader: " + mode + "]"
+}
 
 // rowMeter implements the "rows without consuming input" clause.
 type rowMeter struct {
@@ -88,20 +118,16 @@ func calibrate() {
 	runtime.GC()
 	baseline = math.MaxUint64
 	for i := 0; i < 5; i++ {
-		var p any
 		d := measure(func() {
 			func() {
-				defer func() { p = recover() }()
+				defer func() { recover() }()
 			}()
 		})
 		if d < baseline {
 			baseline = d
 		}
 	}
-	_ = p0(baseline)
 }
-
-func p0(uint64) int { return 0 }
 
 type violation struct {
 	kind  string // panic | alloc | rows | contract
@@ -115,7 +141,11 @@ func (v *violation) Error() string { return v.api + ": " + v.msg }
 // guard runs one decoder call sequence.  f must build its own reader from the
 // input bytes (it may be run again to re-measure) and returns an oracle error for
 // the rows / contract clauses.
-func guard(api string, n int, f func() error) error {
+func guard(api string, n int, f func() error) error { return guardExtra(api, n, 0, f) }
+
+// guardExtra is guard with an allowance added to the allocation bound (used only
+// for the excluded input class of a known finding).
+func guardExtra(api string, n int, extra uint64, f func() error) error {
 	baselineOnce.Do(calibrate)
 	var perr error
 	var pval any
@@ -148,7 +178,7 @@ func guard(api string, n int, f func() error) error {
 	if perr != nil {
 		return perr
 	}
-	if bound := allocBound(n); d > bound {
+	if bound := allocBound(n) + extra; d > bound {
 		// allocation by another goroutine between the two samples would be counted too: only the
 		// smallest of three measurements is held against the decoder
 		for i := 0; i < 2 && d > bound; i++ {
@@ -161,7 +191,7 @@ func guard(api string, n int, f func() error) error {
 			}
 		}
 		if d > bound {
-			return &violation{kind: "alloc", api: api, msg: fmt.Sprintf("allocated %d bytes decoding a %d-byte input (bound 1 MiB + 64 n + 2 n^2 = %d): allocation out of proportion to the input", d, n, bound)}
+			return &violation{kind: "alloc", api: api, msg: fmt.Sprintf("allocated %d bytes decoding a %d-byte input (bound 1 MiB + 64 n + 2 n^2 = %d): allocation out of proportion to the input", d, n, allocBound(n))}
 		}
 	}
 	return nil
@@ -189,35 +219,35 @@ func (r *report) label(s string) { r.labels = append(r.labels, s) }
 // checkSTL: every STL facet occupies at least 48 bytes (binary record: 50; ASCII:
 // three "vertex a b c" lines of >= 13 bytes and "endfacet" + newline), so no reader
 // can legitimately return more than n/48 triangles from n bytes.
-func checkSTL(data []byte, rep *report) error {
+func checkSTL(data []byte, mode string, rep *report) error {
 	n := len(data)
 	maxRows := n / 48
-	if err := guard("model3d.ReadSTL", n, func() error {
-		tris, err := model3d.ReadSTL(newCR(data))
+	if err := guard(apiName("model3d.ReadSTL", mode), n, func() error {
+		tris, err := model3d.ReadSTL(newCR(data, mode))
 		if err != nil {
 			return nil
 		}
 		rep.ok = true
 		if len(tris) > maxRows {
-			return rowsErr("model3d.ReadSTL", "returned %d triangles from %d bytes (a facet needs at least 48 bytes)", len(tris), n)
+			return rowsErr(apiName("model3d.ReadSTL", mode), "returned %d triangles from %d bytes (a facet needs at least 48 bytes)", len(tris), n)
 		}
 		for i, t := range tris {
 			if t == nil {
-				return contractErr("model3d.ReadSTL", "nil error but triangle %d is nil", i)
+				return contractErr(apiName("model3d.ReadSTL", mode), "nil error but triangle %d is nil", i)
 			}
 		}
 		return nil
 	}); err != nil {
 		return err
 	}
-	return guard("fileformats.STLReader", n, func() error {
-		cr := newCR(data)
+	return guard(apiName("fileformats.STLReader", mode), n, func() error {
+		cr := newCR(data, mode)
 		r, err := fileformats.NewSTLReader(cr)
 		if err != nil {
 			return nil
 		}
 		if r == nil {
-			return contractErr("fileformats.NewSTLReader", "nil error and nil reader")
+			return contractErr(apiName("fileformats.NewSTLReader", mode), "nil error and nil reader")
 		}
 		rep.accepted = true
 		if r.IsBinary() {
@@ -232,18 +262,17 @@ func checkSTL(data []byte, rep *report) error {
 				break
 			}
 			if err := m.row(); err != nil {
-				return rowsErr("STLReader.ReadTriangle", "%v", err)
+				return rowsErr(apiName("STLReader.ReadTriangle", mode), "%v", err)
 			}
 			if m.rows > maxRows {
-				return rowsErr("STLReader.ReadTriangle", "returned %d triangles from %d bytes (a facet needs at least 48 bytes): rows without input", m.rows, n)
+				return rowsErr(apiName("STLReader.ReadTriangle", mode), "returned %d triangles from %d bytes (a facet needs at least 48 bytes): rows without input", m.rows, n)
+			}
+			// binary layout: 80-byte header, 4-byte count, 50 bytes per record
+			if r.IsBinary() && 84+50*m.rows > n {
+				return rowsErr(apiName("STLReader.ReadTriangle", mode), "returned %d binary records from %d bytes (84 + 50 per record needed): a short read was taken for a record", m.rows, n)
 			}
 		}
-		// a reader that failed must keep failing, not loop or panic
-		if _, _, err := r.ReadTriangle(); err == nil {
-			if m.rows+1 > maxRows {
-				return rowsErr("STLReader.ReadTriangle", "returned a triangle after an error, %d rows from %d bytes", m.rows+1, n)
-			}
-		}
+		r.ReadTriangle() // asking again after an error must not panic either
 		return nil
 	})
 }
@@ -251,22 +280,22 @@ func checkSTL(data []byte, rep *report) error {
 // checkOFF: ReadFace returns at most one face per input line; ReadOFF at most
 // one triangle per two input bytes (a k-gon line has at least 2k+2 bytes and
 // yields k-2 triangles).
-func checkOFF(data []byte, skipTriangulation bool, rep *report) error {
+func checkOFF(data []byte, mode string, skipTriangulation bool, extra uint64, rep *report) error {
 	n := len(data)
 	lines := bytes.Count(data, []byte{'\n'})
 	if !skipTriangulation {
-		if err := guard("model3d.ReadOFF", n, func() error {
-			tris, err := model3d.ReadOFF(newCR(data))
+		if err := guardExtra(apiName("model3d.ReadOFF", mode), n, extra, func() error {
+			tris, err := model3d.ReadOFF(newCR(data, mode))
 			if err != nil {
 				return nil
 			}
 			rep.ok = true
 			if len(tris) > n/2 {
-				return rowsErr("model3d.ReadOFF", "returned %d triangles from %d bytes", len(tris), n)
+				return rowsErr(apiName("model3d.ReadOFF", mode), "returned %d triangles from %d bytes", len(tris), n)
 			}
 			for i, t := range tris {
 				if t == nil {
-					return contractErr("model3d.ReadOFF", "nil error but triangle %d is nil", i)
+					return contractErr(apiName("model3d.ReadOFF", mode), "nil error but triangle %d is nil", i)
 				}
 			}
 			return nil
@@ -274,14 +303,16 @@ func checkOFF(data []byte, skipTriangulation bool, rep *report) error {
 			return err
 		}
 	}
-	return guard("fileformats.OFFReader", n, func() error {
-		cr := newCR(data)
+	// ReadFace is called once more after its first error, and a failed vertex read is retried
+	// (with its pre-allocation) by every call: twice the allowance of the excluded class
+	return guardExtra(apiName("fileformats.OFFReader", mode), n, 2*extra, func() error {
+		cr := newCR(data, mode)
 		r, err := fileformats.NewOFFReader(cr)
 		if err != nil {
 			return nil
 		}
 		if r == nil {
-			return contractErr("fileformats.NewOFFReader", "nil error and nil reader")
+			return contractErr(apiName("fileformats.NewOFFReader", mode), "nil error and nil reader")
 		}
 		rep.accepted = true
 		m := rowMeter{cr: cr}
@@ -291,10 +322,10 @@ func checkOFF(data []byte, skipTriangulation bool, rep *report) error {
 				break
 			}
 			if err := m.row(); err != nil {
-				return rowsErr("OFFReader.ReadFace", "%v", err)
+				return rowsErr(apiName("OFFReader.ReadFace", mode), "%v", err)
 			}
 			if m.rows > lines {
-				return rowsErr("OFFReader.ReadFace", "returned %d faces from an input of %d lines: rows without input", m.rows, lines)
+				return rowsErr(apiName("OFFReader.ReadFace", mode), "returned %d faces from an input of %d lines: rows without input", m.rows, lines)
 			}
 			if len(face) >= 4 {
 				rep.label("off:polygon-face")
@@ -305,25 +336,35 @@ func checkOFF(data []byte, skipTriangulation bool, rep *report) error {
 	})
 }
 
-func checkColorPLY(data []byte, rep *report) error {
+func checkColorPLY(data []byte, mode string, rep *report) error {
 	n := len(data)
-	return guard("model3d.ReadColorPLY", n, func() error {
-		tris, colors, err := model3d.ReadColorPLY(newCR(data))
+	if mode == "" {
+		// classification only: did the input get past the header parser?
+		if err := guard("fileformats.NewPLYReader", n, func() error {
+			if r, err := fileformats.NewPLYReader(newCR(data, mode)); err == nil && r != nil {
+				rep.accepted = true
+			}
+			return nil
+		}); err != nil {
+			return err
+		}
+	}
+	return guard(apiName("model3d.ReadColorPLY", mode), n, func() error {
+		tris, colors, err := model3d.ReadColorPLY(newCR(data, mode))
 		if err != nil {
 			return nil
 		}
 		rep.ok = true
-		rep.accepted = true
 		if colors == nil {
-			return contractErr("model3d.ReadColorPLY", "nil error and nil colour map")
+			return contractErr(apiName("model3d.ReadColorPLY", mode), "nil error and nil colour map")
 		}
 		// a face row has at least 7 bytes in ASCII ("3 0 0 0") and 13 in binary
 		if len(tris)*7 > n {
-			return rowsErr("model3d.ReadColorPLY", "returned %d triangles from %d bytes", len(tris), n)
+			return rowsErr(apiName("model3d.ReadColorPLY", mode), "returned %d triangles from %d bytes", len(tris), n)
 		}
 		for i, t := range tris {
 			if t == nil {
-				return contractErr("model3d.ReadColorPLY", "nil error but triangle %d is nil", i)
+				return contractErr(apiName("model3d.ReadColorPLY", mode), "nil error but triangle %d is nil", i)
 			}
 		}
 		return nil
@@ -333,9 +374,12 @@ func checkColorPLY(data []byte, rep *report) error {
 // minRowBytes is the least number of input bytes a row of the element occupies.
 func minRowBytes(h fileformats.PLYHeader, e *fileformats.PLYElement) int {
 	total := 0
-	for _, p := range e.Properties {
+	for i, p := range e.Properties {
 		if h.Format == fileformats.PLYFormatASCII {
 			total++ // at least a one-character token
+			if i > 0 {
+				total++ // and a separator between tokens
+			}
 			continue
 		}
 		t := p.ElemType
@@ -347,16 +391,16 @@ func minRowBytes(h fileformats.PLYHeader, e *fileformats.PLYElement) int {
 	return total
 }
 
-func checkPLYReader(data []byte, rep *report) error {
+func checkPLYReader(data []byte, mode string, rep *report) error {
 	n := len(data)
-	if err := guard("fileformats.PLYReader", n, func() error {
-		cr := newCR(data)
+	if err := guard(apiName("fileformats.PLYReader", mode), n, func() error {
+		cr := newCR(data, mode)
 		r, err := fileformats.NewPLYReader(cr)
 		if err != nil {
 			return nil
 		}
 		if r == nil {
-			return contractErr("fileformats.NewPLYReader", "nil error and nil reader")
+			return contractErr(apiName("fileformats.NewPLYReader", mode), "nil error and nil reader")
 		}
 		rep.accepted = true
 		h := r.Header()
@@ -370,6 +414,11 @@ func checkPLYReader(data []byte, rep *report) error {
 		}
 		m := rowMeter{cr: cr}
 		used := 0
+		// the body starts after the first "end_header\n" (found here, not taken from the reader)
+		body := n
+		if i := bytes.Index(data, []byte("end_header\n")); i >= 0 {
+			body = n - (i + 11)
+		}
 		for {
 			vals, el, err := r.Read()
 			if err != nil {
@@ -379,29 +428,32 @@ func checkPLYReader(data []byte, rep *report) error {
 				break
 			}
 			if err := m.row(); err != nil {
-				return rowsErr("PLYReader.Read", "%v", err)
+				return rowsErr(apiName("PLYReader.Read", mode), "%v", err)
 			}
 			if el == nil {
-				return contractErr("PLYReader.Read", "nil error and nil element")
+				return contractErr(apiName("PLYReader.Read", mode), "nil error and nil element")
 			}
 			if len(vals) != len(el.Properties) {
-				return contractErr("PLYReader.Read", "row has %d values for %d properties", len(vals), len(el.Properties))
+				return contractErr(apiName("PLYReader.Read", mode), "row has %d values for %d properties", len(vals), len(el.Properties))
 			}
 			for i, v := range vals {
 				if v == nil {
-					return contractErr("PLYReader.Read", "nil error but value %d of the row is nil", i)
+					return contractErr(apiName("PLYReader.Read", mode), "nil error but value %d of the row is nil", i)
 				}
 				if l, ok := v.(fileformats.PLYValueList); ok {
 					rep.label("ply:list-row")
 					if l.Length == nil {
-						return contractErr("PLYReader.Read", "list value without a length")
+						return contractErr(apiName("PLYReader.Read", mode), "list value without a length")
 					}
 				}
 			}
 			if mb := minRowBytes(h, el); mb > 0 {
 				used += mb
-				if used > n {
-					return rowsErr("PLYReader.Read", "returned %d rows which need at least %d bytes from a %d-byte input: rows without input", m.rows, used, n)
+				if h.Format == fileformats.PLYFormatASCII && m.rows > 1 {
+					used++ // the line break before this row
+				}
+				if used > body {
+					return rowsErr(apiName("PLYReader.Read", mode), "returned %d rows which need at least %d bytes, but only %d bytes follow the header: rows without input", m.rows, used, body)
 				}
 			}
 		}
@@ -410,11 +462,14 @@ func checkPLYReader(data []byte, rep *report) error {
 	}); err != nil {
 		return err
 	}
+	if mode != "" {
+		return nil
+	}
 	// the header decoder on its own: the whole input as a string, and the header part
-	if err := guard("fileformats.NewPLYHeaderDecode", n, func() error {
+	if err := guard(apiName("fileformats.NewPLYHeaderDecode", mode), n, func() error {
 		h, err := fileformats.NewPLYHeaderDecode(string(data))
 		if err == nil && h == nil {
-			return contractErr("fileformats.NewPLYHeaderDecode", "nil error and nil header")
+			return contractErr(apiName("fileformats.NewPLYHeaderDecode", mode), "nil error and nil header")
 		}
 		return nil
 	}); err != nil {
@@ -422,10 +477,10 @@ func checkPLYReader(data []byte, rep *report) error {
 	}
 	if i := bytes.Index(data, []byte("end_header\n")); i >= 0 && i+11 < len(data) {
 		hd := string(data[:i+11])
-		return guard("fileformats.NewPLYHeaderDecode", len(hd), func() error {
+		return guard(apiName("fileformats.NewPLYHeaderDecode", mode), len(hd), func() error {
 			h, err := fileformats.NewPLYHeaderDecode(hd)
 			if err == nil && h == nil {
-				return contractErr("fileformats.NewPLYHeaderDecode", "nil error and nil header")
+				return contractErr(apiName("fileformats.NewPLYHeaderDecode", mode), "nil error and nil header")
 			}
 			if err == nil {
 				rep.label("ply:header-decoded")
@@ -438,49 +493,52 @@ func checkPLYReader(data []byte, rep *report) error {
 
 // checkCSV: a row needs four fields, i.e. at least "0,0,0,0" and a line break
 // (the last row may omit it): at most (n+1)/8 rows.
-func checkCSV(data []byte, rep *report) error {
+func checkCSV(data []byte, mode string, rep *report) error {
 	n := len(data)
 	maxRows := (n + 1) / 8
 	if err := guard("model2d.DecodeCSV", n, func() error {
+		if mode != "" {
+			return nil // DecodeCSV takes bytes, not a reader
+		}
 		segs, err := model2d.DecodeCSV(data)
 		if err != nil {
 			return nil
 		}
 		rep.ok = true
-		rep.accepted = len(segs) > 0
 		if len(segs) > maxRows {
-			return rowsErr("model2d.DecodeCSV", "returned %d segments from %d bytes", len(segs), n)
+			return rowsErr(apiName("model2d.DecodeCSV", mode), "returned %d segments from %d bytes", len(segs), n)
 		}
 		for i, s := range segs {
 			if s == nil {
-				return contractErr("model2d.DecodeCSV", "nil error but segment %d is nil", i)
+				return contractErr(apiName("model2d.DecodeCSV", mode), "nil error but segment %d is nil", i)
 			}
 		}
 		return nil
 	}); err != nil {
 		return err
 	}
-	return guard("fileformats.SegmentCSVReader", n, func() error {
-		cr := newCR(data)
+	return guard(apiName("fileformats.SegmentCSVReader", mode), n, func() error {
+		cr := newCR(data, mode)
 		r := fileformats.NewSegmentCSVReader(cr)
 		m := rowMeter{cr: cr}
 		for {
 			_, err := r.Read()
-			if err == io.EOF {
+			if err == io.EOF || errors.Is(err, errInjected) {
 				break
 			}
 			if err != nil {
 				// the reader may be asked again after a bad row (csv readers resynchronise on the next line)
 				if m.rows++; m.rows > n+2 {
-					return rowsErr("SegmentCSVReader.Read", "returned %d results (rows and row errors) from %d bytes without reaching io.EOF", m.rows, n)
+					return rowsErr(apiName("SegmentCSVReader.Read", mode), "returned %d results (rows and row errors) from %d bytes without reaching io.EOF", m.rows, n)
 				}
 				continue
 			}
+			rep.accepted = true // at least one row was decoded
 			if err := m.row(); err != nil {
-				return rowsErr("SegmentCSVReader.Read", "%v", err)
+				return rowsErr(apiName("SegmentCSVReader.Read", mode), "%v", err)
 			}
 			if m.rows > n+2 {
-				return rowsErr("SegmentCSVReader.Read", "returned %d results from %d bytes", m.rows, n)
+				return rowsErr(apiName("SegmentCSVReader.Read", mode), "returned %d results from %d bytes", m.rows, n)
 			}
 		}
 		return nil
@@ -495,6 +553,13 @@ func checkCSV(data []byte, rep *report) error {
 // per line) and returns the faces with four or more vertices that a conforming
 // reader hands to a triangulator before it meets the first malformed line.
 func offPolygons(data []byte) [][][3]float64 {
+	polys, _ := offParse(data)
+	return polys
+}
+
+// offParse also returns the vertex count declared by the header (-1: no header).
+func offParse(data []byte) (polys [][][3]float64, declared int) {
+	declared = -1
 	pos := 0
 	line := func() (string, bool) {
 		i := bytes.IndexByte(data[pos:], '\n')
@@ -507,63 +572,66 @@ func offPolygons(data []byte) [][][3]float64 {
 	}
 	l1, ok := line()
 	if !ok || !strings.HasPrefix(l1, "OFF") {
-		return nil
+		return nil, declared
 	}
 	l2 := l1[3:]
 	if len(l1) <= 4 {
 		if l2, ok = line(); !ok {
-			return nil
+			return nil, declared
 		}
 	}
 	parts := strings.Fields(l2)
 	if len(parts) != 3 {
-		return nil
+		return nil, declared
 	}
 	nv, err := strconv.Atoi(parts[0])
 	if err != nil || nv < 0 {
-		return nil
+		return nil, declared
 	}
 	nf, err := strconv.Atoi(parts[1])
-	if err != nil || nf <= 0 {
-		return nil
+	if err != nil || nf < 0 {
+		return nil, declared
+	}
+	declared = nv
+	if nf == 0 {
+		return nil, declared // vertices are only read when the first face is
 	}
 	var verts [][3]float64
 	for i := 0; i < nv; i++ {
 		l, ok := line()
 		if !ok {
-			return nil
+			return nil, declared
 		}
 		p := strings.Fields(l)
 		if len(p) != 3 {
-			return nil
+			return nil, declared
 		}
 		var v [3]float64
 		for j := range p {
 			if v[j], err = strconv.ParseFloat(p[j], 64); err != nil {
-				return nil
+				return nil, declared
 			}
 		}
 		verts = append(verts, v)
 	}
-	var polys [][][3]float64
 	for i := 0; i < nf; i++ {
 		l, ok := line()
 		if !ok {
-			return polys
+			return polys, declared
 		}
 		p := strings.Fields(l)
 		if len(p) == 0 {
-			return polys
+			return polys, declared
 		}
 		k, err := strconv.Atoi(p[0])
 		if err != nil || k < 0 || k+1 != len(p) {
-			return polys
+			return polys, declared
 		}
 		poly := make([][3]float64, k)
 		for j, s := range p[1:] {
 			idx, err := strconv.Atoi(s)
 			if err != nil || idx < 0 || idx >= len(verts) {
-				return polys
+				return polys, declared
 			}
 			poly[j] = verts[idx]
 		}
@@ -571,7 +639,7 @@ func offPolygons(data []byte) [][][3]float64 {
 			polys = append(polys, poly)
 		}
 	}
-	return polys
+	return polys, declared
 }
 
 // generalConvex reports whether the polygon is finite, of moderate size, planar
@@ -630,19 +698,10 @@ func generalConvex(p [][3]float64) bool {
 	return math.Abs(turn-2*math.Pi) < 0.1
 }
 
-func offHasDegeneratePolygon(data []byte) bool {
-	for _, p := range offPolygons(data) {
-		if !generalConvex(p) {
-			return true
-		}
-	}
-	return false
-}
-
 // isOFFDegeneratePanic recognises the panic of the known finding.
 func isOFFDegeneratePanic(err error) bool {
 	var v *violation
-	if !errors.As(err, &v) || v.kind != "panic" || v.api != "model3d.ReadOFF" {
+	if !errors.As(err, &v) || v.kind != "panic" || !strings.HasPrefix(v.api, "model3d.ReadOFF") {
 		return false
 	}
 	return strings.Contains(v.panic, "polygon does not span a 2-D space") || strings.Contains(v.panic, "no ears detected")
@@ -650,25 +709,64 @@ func isOFFDegeneratePanic(err error) bool {
 
 // ---------------------------------------------------------------------------
 
-// checkTarget runs every API of the target's format on the input.  excludeOFF
-// switches the known-finding input class off: ReadOFF (which triangulates) is not
-// run on inputs with a polygon face outside general convex position; the row API
-// still is.
-func checkTarget(target string, data []byte, excludeOFF bool, rep *report) (excluded bool, err error) {
-	switch target {
-	case "ReadSTL":
-		return false, checkSTL(data, rep)
-	case "ReadOFF":
-		skip := excludeOFF && offHasDegeneratePolygon(data)
-		return skip, checkOFF(data, skip, rep)
-	case "ReadColorPLY":
-		return false, checkColorPLY(data, rep)
-	case "PLYReader":
-		return false, checkPLYReader(data, rep)
-	case "DecodeCSV":
-		return false, checkCSV(data, rep)
+// checkTarget runs every API of the target's format on the input and returns the
+// tags of the switched-off known-finding classes the input belongs to.
+func checkTarget(target string, data []byte, ex exclusions, rep *report) (excluded []string, err error) {
+	var skipTri bool
+	var extra uint64
+	if target == "ReadOFF" {
+		polys, declared := offParse(data)
+		if ex.offPolygon {
+			for _, p := range polys {
+				if !generalConvex(p) {
+					skipTri = true
+				}
+			}
+			if skipTri {
+				excluded = append(excluded, offTag)
+			}
+		}
+		if ex.offPrealloc && declared >= offPreallocClass {
+			// known finding off-vertex-prealloc: the vertex table is pre-allocated from the declared
+			// count, capped at 2^16 entries of 24 bytes; exactly that much is not held against the reader
+			extra = 24 * uint64(min(declared, 1<<16))
+			excluded = append(excluded, offPreallocTag)
+		}
 	}
-	return false, fmt.Errorf("unknown target %q", target)
+	for _, mode := range readerModes {
+		r := rep
+		if mode != "" {
+			r = &report{} // classification comes from the plain reader only
+		}
+		switch target {
+		case "ReadSTL":
+			err = checkSTL(data, mode, r)
+		case "ReadOFF":
+			err = checkOFF(data, mode, skipTri, extra, r)
+		case "ReadColorPLY":
+			err = checkColorPLY(data, mode, r)
+		case "PLYReader":
+			err = checkPLYReader(data, mode, r)
+		case "DecodeCSV":
+			err = checkCSV(data, mode, r)
+		default:
+			return nil, fmt.Errorf("unknown target %q", target)
+		}
+		if err != nil {
+			return excluded, err
+		}
+	}
+	return excluded, nil
 }
 
-var _ = binary.LittleEndian
+// exclusions: known-finding input classes that are switched off.
+type exclusions struct {
+	offPolygon  bool // ReadOFF is not run on inputs with a polygon face outside general convex position
+	offPrealloc bool // OFF inputs declaring >= offPreallocClass vertices get the capped pre-allocation as allowance
+}
+
+const (
+	offTag           = "off-degenerate-polygon"
+	offPreallocTag   = "off-vertex-prealloc"
+	offPreallocClass = 1 << 14 // below this count two pre-allocations (ReadFace is called twice) stay under 0.75 MiB
+)
